@@ -29,14 +29,15 @@ def script_lines(bench, driver, bits, threads):
             cs = " ".join(f"{c['to']}:{c.get('port', 0)}:{c.get('kind', 'plain')}:{1 if c.get('late') else 0}" for c in conns)
             L.append(f"{kind} {key} {bench.get('handles', {}).get(key, 'orig')} {cs}")
 
+    def one(x):
+        if x[0] == "yield":
+            return "yield"
+        if x[0] == "join":
+            return "join:" + "+".join(one(y) for y in x[1:])
+        return {"send": "send", "query": "query", "query-first": "queryfirst"}[x[0]] + f":{x[1]}"
+
     def ops(o):
-        out = []
-        for x in o:
-            if x[0] == "yield":
-                out.append("yield")
-            else:
-                out.append({"send": "send", "query": "query", "query-first": "queryfirst"}[x[0]] + f":{x[1]}")
-        return " ".join(out)
+        return " ".join(one(x) for x in o)
     for key, o in bench.get("handlers", {}).items():
         L.append(f"handler {key} {ops(o)}")
     for key, o in bench.get("init", {}).items():
@@ -113,6 +114,54 @@ def sched_replay(work, bench, driver, bits, wlog, d):
     return log, (panic[0] if panic else None)
 
 
+def validate_models(work, mir, src_root, benches, per_bench=2):
+    """translator/model validation: for the first paths of each bench the symbolic observation log must equal, entry by
+    entry, the log of the real compiled code polled in the same task order (scheduled in-crate replay).  -> (ok, total, notes)"""
+    from vlib.mirse import interp as IN
+    P = IN.Program(mir, src_root)
+    ok = total = 0
+    notes = []
+    d = work.sub("validate")
+    os.makedirs(d, exist_ok=True)
+    for b in benches:
+        logs = []
+
+        def scen(it, b=b):
+            from vlib.mirse.taskworld import TaskWorld
+            w = TaskWorld(it, b["bench"], permute=b.get("permute", True))
+            if w.sim_cell is not None:
+                for k, cmd in enumerate(b["driver"]):
+                    if cmd[0] == "connect":
+                        w.connect_late(cmd[1], cmd[2], cmd[3])
+                        continue
+                    if w.process_event(k + 1, cmd[0], cmd[1]) != ("Ok",):
+                        break
+            vals = it.model_values() or {}
+            logs.append((list(w.log), vals))
+        ex = IN.Explorer(P, MPL.make_models, loop_bound=60, max_paths=per_bench, budget_s=120)
+        try:
+            ex.explore(scen, on_path_end=lambda it, e: None)
+        except IN.Unsupported:
+            pass   # the path cap ends the exploration
+        for log, vals in logs[:per_bench]:
+            total += 1
+            bits = [int(vals.get(f"d{m}", 1)) & 1 for m in range(1, 64)]
+            nlog, panic = sched_replay(work, b["bench"], b["driver"], bits, log, d)
+            if nlog is None:
+                notes.append(f"{b['name']}: scheduled replay failed: {panic}")
+                continue
+            def norm(x):
+                return tuple(norm(y) for y in x) if isinstance(x, (list, tuple)) else x
+            a = [norm(x) for x in log]
+            nlog = [norm(x) for x in nlog]
+            if a == nlog:
+                ok += 1
+            else:
+                k = next((i for i, (x, y) in enumerate(zip(a, nlog)) if x != y), min(len(a), len(nlog)))
+                notes.append(f"{b['name']}: logs differ at entry {k}: symbolic {a[k] if k < len(a) else None} vs native {nlog[k] if k < len(nlog) else None}")
+    return ok, total, notes
+
+
 def make_native(prop):
     def _native(work, job, v, d):
         w = v["witness"] or {}
@@ -174,6 +223,24 @@ def run(prop, tier, labels, only=None):
                         "granularity": "task polls (await points)"}
     ev.cov["outside_claim"] = list(OUTSIDE)
     rc = SP.run(prop, tier, ev, "vlib.msgplane", jobs, native_replay=make_native(prop), only_labels=labels, work_key=f"mirse-{prop}")
+    if rc == C.EXIT_OK and not only:
+        # model validation on every run: symbolic log == log of the compiled crate polled in the same task order
+        from vlib import drvprop as DP
+        work = C.WorkDir(f"mirse-{prop}")
+        try:
+            mir, src_root, _ = DP.dump_mir(work)
+            chosen = [b for b in MPL.benches(tier) if prop in b["props"]]
+            chosen = chosen[:3] if tier == "quick" else chosen[:8]
+            ok, total, notes = validate_models(work, mir, src_root, chosen, per_bench=2 if tier == "quick" else 4) if mir else (0, 1, ["MIR dump failed"])
+        finally:
+            work.close()
+        ev.cov["traces_validated_against_impl"] = ok
+        C.log(f"[{prop}] model validation: {ok}/{total} symbolic observation logs reproduced entry by entry by the compiled crate under the same task schedule")
+        if ok != total:
+            for n in notes[:4]:
+                C.log(f"[{prop}]   {n}")
+            ev.notes.append(f"model validation mismatch: {notes[:2]}")
+            rc = C.EXIT_INCONCLUSIVE
     return ev, rc
 
 
